@@ -652,11 +652,19 @@ func keyFor(kind string, vb uint16, seq uint64) string {
 	return fmt.Sprintf("k%d-%d", vb, seq)
 }
 
+// internalForm: the DCP event type through which a library-internal / transaction key arrives (a third each; a
+// heart-beat document, for instance, is written with a TTL and later expires). Deterministic in the seqno.
+func internalForm(e srvEvent) string { return []string{"mut", "del", "exp"}[e.Seq%3] }
+
 // feed hands one server event to the real observer exactly as gocbcore's read loop would.
 func feedEvent(o couchbase.Observer, vb uint16, e srvEvent) {
 	cas := uint64(1700000000+e.Seq) * 1_000_000_000
-	switch e.Kind {
-	case "mut", "ikey", "txn":
+	kind := e.Kind
+	if kind == "ikey" || kind == "txn" {
+		kind = internalForm(e)
+	}
+	switch kind {
+	case "mut":
 		o.Mutation(gocbcore.DcpMutation{SeqNo: e.Seq, RevNo: e.Seq, Cas: cas, VbID: vb, Key: []byte(e.Key), Value: []byte(`{"v":1}`), Datatype: 1})
 	case "del":
 		o.Deletion(gocbcore.DcpDeletion{SeqNo: e.Seq, RevNo: e.Seq, Cas: cas, VbID: vb, Key: []byte(e.Key)})
